@@ -256,8 +256,9 @@ def build_generic(sc, sid, container_fn, d_extra=()):
     if "ptrofalias" in sps:
         h.add("type TPA = *TA", "")
     h.add("var _ %sU" % qual, "")
-    if pkg != "d":
-        # the using package has a type of its own that is also called T, with the same constructor names: a different type
+    if pkg != "d" and any(c.get("kind") in ("ctor1", "ctor2") for conts in sc["files"] for c in conts):
+        # a using package that has functions called NewT / MakeT also has a type of its own called T, with those functions as its
+        # constructors: a different type (without such functions the package declares no annotated type at all)
         h.add("// T is u's own record type; it only shares its name with d.T.", "// @constructor NewT, MakeT", "type T struct{ Own int }", "")
     for l in handles:
         h.add(l)
